@@ -2393,8 +2393,13 @@ PROPS = {
         'pinned': ['C03_fast_in_call_safe_R', 'C03_fast_out_call_safe_R', 'C03_fast_in_run_safe_R', 'C03_fast_out_run_safe_R',
                    'C03_ctor_fast_in_R', 'C03_ctor_fast_out_R', 'C03_fast_window_R',
                    'C03_sinc_in_call_safe_R', 'C03_sinc_in_run_safe_R', 'C03_ctor_sinc_in_R',
-                   'C03_sinc_out_call_safe_R', 'C03_sinc_out_run_safe_R', 'C03_ctor_sinc_out_R'],
-        'unproved': ['the three FFT types: safety is established by the bit-exact model on every sampled history, not by theorem',
+                   'C03_sinc_out_call_safe_R', 'C03_sinc_out_run_safe_R', 'C03_ctor_sinc_out_R',
+                   'C03_fft_inout_call_safe', 'C03_fft_inout_run_safe', 'C03_fft_in_call_safe_R', 'C03_fft_in_run_safe_R',
+                   'C03_fft_out_call_safe_R', 'C03_fft_out_run_safe_R', 'C03_ctor_fft_in_R', 'C03_ctor_fft_out_R', 'C03_ctor_fft_inout'],
+        'unproved': ['FFT types: the spectral core is an oracle whose length contract (a block of fft_size_in samples gives 2*fft_size_out '
+                     'samples) is a hypothesis of the theorems; it is checked on every recorded unit of every run',
+                     'FftFixedIn / FftFixedOut: the f32 quotients floor((saved+chunk)/fft_size_in) and ceil(needed/fft_size_out) are read as '
+                     'real quotients (exact below 2^23); the binary32 version is not formalised',
                      'ratio changes (ramped or stepped): outside the constant-ratio theorem; the executable envelope of tools/gens.py separates '
                      'histories expected to be safe from the recorded finding classes',
                      'floating-point rounding inside the loops (theorems are over R)'],
@@ -2406,9 +2411,9 @@ PROPS = {
         'run': run_C04,
         'judge_replay': lambda c: judge_C04(c) if 'ops' in c.meta else [],
         'pinned': ['C04_fast_in_counts_R', 'C04_fast_out_counts_R', 'C04_fast_in_next_le_max_R', 'C04_sinc_in_next_le_max_R', 'C04_fast_out_next_le_max_R',
-                   'C04_sinc_in_counts_R', 'C04_sinc_out_counts_R'],
+                   'C04_sinc_in_counts_R', 'C04_sinc_out_counts_R', 'C04_fft_in_counts_R', 'C04_fft_out_counts_R', 'C04_fft_inout_counts'],
         'unproved': ['next <= max in binary64 (the inequalities are proved over R; the fix of D7 makes both sides the same association, '
-                     'monotonicity of rounding is not formalised)', 'sinc and FFT types: counts by correspondence only',
+                     'monotonicity of rounding is not formalised)', 'next <= max for the sinc fixed-output and the FFT types: by the predicate on every trace',
                      'ratio changes outside the envelope'],
         'assumptions': ['ideal arithmetic'],
         'trusted_base': ['Reals axioms, Flocq Ztrunc/Zceil lemmas'],
@@ -2430,8 +2435,9 @@ PROPS = {
         'run': run_C07,
         'judge_replay': lambda c: judge_C07(c) if 'cfg' in c.meta else [],
         'pinned': ['C07_fast_in_telescope_R', 'C07_fast_out_telescope_R', 'C07_fast_in_bound_R', 'C07_fast_out_bound_R',
-                   'C07_ctor_fast_in_R', 'C07_ctor_fast_out_R', 'C07_sinc_in_bound_R', 'C07_sinc_out_bound_R'],
-        'unproved': ['FFT types: by the bit-exact model and the balance predicate on every sampled stream, not by theorem',
+                   'C07_ctor_fast_in_R', 'C07_ctor_fast_out_R', 'C07_sinc_in_bound_R', 'C07_sinc_out_bound_R',
+                   'C07_fft_in_bound_R', 'C07_fft_out_bound_R', 'C07_fft_inout_exact'],
+        'unproved': ['FFT types: the f32 quotients are read as real quotients (exact below 2^23)',
                      'float drift of the carried position over very long streams'],
         'assumptions': ['ideal arithmetic'],
         'trusted_base': ['Reals axioms'],
